@@ -69,8 +69,20 @@ func solve(dir string, ob *Obligation, idx int, timeoutS int, second bool) {
 		ob.Status, ob.Solver, ob.Time, ob.Output = r.status, r.solver, r.secs, r.out
 		return
 	}
-	r := runSolver(ctx, solvers[0], file, timeoutS)
+	// first: z3 with E-matching only (no model-based quantifier instantiation). It either finds the proof quickly
+	// or saturates and gives up at once; "unsat" from it is as good as from any other configuration.
+	r := runSolver(ctx, solverSpec{"z3-new/ematch", func(f string, t int) []string {
+		return []string{"z3-new", fmt.Sprintf("-T:%d", t), "smt.auto_config=false", "smt.mbqi=false", f}
+	}}, file, timeoutS)
 	total := r.secs
+	if r.status != "unsat" {
+		r0 := r
+		r = runSolver(ctx, solvers[0], file, timeoutS)
+		total += r.secs
+		if r.status == "unknown" && r0.status == "sat" {
+			r = r0
+		}
+	}
 	if r.status == "unknown" {
 		cctx, cancel := context.WithCancel(ctx)
 		ch := make(chan solveResult, 2)
